@@ -216,6 +216,9 @@ fn oracle(s: &Session, sink: &mut Sink, ids: &Ids, req: &str, dl: usize, value: 
     let id_name = s.vocab.name(1);
     let carries = s.xot.attributes(node).get(id_name).map(|v| v.as_str() == value).unwrap_or(false);
     sink.stat(if carries { "xml_id.some.still-carries-value" } else { "xml_id.some.value-gone-or-changed" });
+    if s.cyclic {
+        return;
+    }
     let in_doc = s.xot.root(node) == s.nodes[dl];
     sink.stat(if in_doc { "xml_id.some.still-in-document" } else { "xml_id.some.moved-out-of-document" });
     if s.xot.is_removed(s.nodes[dl]) {
@@ -331,6 +334,9 @@ fn gen_new(rng: &mut Rng) -> String {
 }
 
 fn queries(s: &mut Session, sink: &mut Sink, ids: &mut Ids, rng: &mut Rng, all: bool) {
+    if s.cyclic {
+        return;
+    }
     let mut qs: Vec<(usize, String)> = ids.pairs.iter().map(|p| (p.0, p.1.clone())).collect();
     // every document × every value seen anywhere (a value of another document must not be found)
     for &d in &ids.docs {
@@ -385,6 +391,9 @@ pub fn one_history(rng: &mut Rng, sink: &mut Sink, n_ops: usize, thorough: bool)
             break;
         }
         let removed_before = count_removed(&s);
+        if s.cyclic {
+            break;
+        }
         let id_els: Vec<usize> = ids.pairs.iter().map(|p| p.2).filter(|&l| !s.xot.is_removed(s.nodes[l])).collect();
         let elems: Vec<usize> = live.iter().copied().filter(|&l| s.xot.is_element(s.nodes[l])).collect();
         let a = *rng.pick(&live);
